@@ -221,8 +221,9 @@ def run(ck, facts):
     else:
         ck.bad("R3", "File::from/anchor", "ast::File::from(&syn::File) not found", None)
     cf = tool.fn("config::find_top_level_attr")
-    lits = C.str_lits(C.fn_body(cf))
-    mt2 = next((n for n in C.walk(C.fn_body(cf)) if n.get("k") == "match" and (n.get("sadt") or "").endswith("syn::item::Item")), None)
+    cf_bodies = C.bodies_inl(tool, C.fn_body(cf), depth=2, exclude=[cf["path"]])     # the scan and the helpers it delegates to
+    lits = [l_ for b_ in cf_bodies for l_ in C.str_lits(b_)]
+    mt2 = next((n for b_ in cf_bodies for n in C.walk(b_) if n.get("k") == "match" and (n.get("sadt") or "").endswith("syn::item::Item")), None)
     kinds = sorted(a["pat"].get("v") for a in mt2["arms"] if a["pat"].get("v")) if mt2 else []
     ck.expect("diplomat::config" in lits and kinds == ["Impl", "Mod", "Struct"], "R3", "find_top_level_attr/scope", "top-level struct/impl/mod attrs equal to diplomat::config", "config scan changed: literals %s, item kinds %s" % (lits, kinds), C.loc(cf))
 
